@@ -31,7 +31,8 @@ def getTarget (j : Json) : Except String Target := do
   -- AllOutputs(): the bin output (always a file) comes last if it is set
   let bin := match getBytes j "bin" with | .ok b => b | .error _ => []
   let all := if bin = [] then outs else outs ++ [⟨.file, bin⟩]
-  pure ⟨l, deps, inputs, all, ← getBool j "testonly", ← getBool j "cmd"⟩
+  let globs := match getBytesList j "globs" with | .ok g => g | .error _ => []
+  pure ⟨l, deps, inputs, globs, all, ← getBool j "testonly", ← getBool j "cmd"⟩
 
 def getAlias (j : Json) : Except String Alias := do
   let l ← getLabel j
@@ -51,7 +52,9 @@ def kindName : Kind → String
 def getCfg (j : Json) : Except String Cfg := do
   match j.getObjVal? "cfg" with
   | .error _ => pure Cfg.current
-  | .ok c => pure ⟨← getBool c "skipSelf", ← getBool c "checkDirs", ← getBool c "dotRoot"⟩
+  | .ok c =>
+    let opt := fun (k : String) => match getBool c k with | .ok b => b | .error _ => true
+    pure ⟨opt "skipSelf", opt "checkDirs", opt "dotRoot", opt "checkGlobs", opt "resolve"⟩
 
 def reject (phase : String) (ks : List Kind) : Json :=
   Json.mkObj [("verdict", Json.str "reject"), ("phase", Json.str phase),
@@ -67,7 +70,7 @@ def analyzeH : Handler := fun j => do
   match buildNodeMap ps with
   | none => pure (reject "nodemap" [.duplicate])
   | some ns =>
-    match buildGraph cfg ns with
+    match buildGraph cfg ws ns with
     | some k => pure (reject "graph" [k])
     | none =>
       match constraintErrors cfg ws ns with
@@ -100,10 +103,11 @@ def pathFnH : Handler := fun j => do
   let fn ← getStr j "fn"
   let cfg ← getCfg j
   match fn with
-  | "within" => pure (Json.mkObj [("r", Json.bool (Paths.pathWithin cfg.dotRoot (← getBytes j "p") (← getBytes j "d")))])
-  | "overlap" => pure (Json.mkObj [("r", Json.bool (Paths.pathsOverlap cfg.dotRoot (← getBytes j "p") (← getBytes j "d")))])
+  | "within" => pure (Json.mkObj [("r", Json.bool (Paths.pathWithin cfg.dotRoot cfg.resolve (← getBytes j "p") (← getBytes j "d")))])
+  | "overlap" => pure (Json.mkObj [("r", Json.bool (Paths.pathsOverlap cfg.dotRoot cfg.resolve (← getBytes j "p") (← getBytes j "d")))])
   | "escape" => pure (Json.mkObj [("r", Json.bool (Paths.triesToEscape (← getBytes j "p")))])
   | "withinws" => pure (Json.mkObj [("r", Json.bool (Paths.isWithinWorkspace (← getBytes j "ws") (← getBytes j "pkg") (← getBytes j "rel")))])
+  | "resolveout" => pure (Json.mkObj [("r", jBytes (Paths.resolvedOutputPath (← getBytes j "ws") (← getBytes j "pkg") (← getBytes j "out")))])
   | "cleanout" => pure (Json.mkObj [("r", jBytes (Paths.cleanOutputPath (← getBytes j "pkg") (← getBytes j "out")))])
   | _ => throw ("unknown fn " ++ fn)
 
@@ -112,7 +116,7 @@ def getBareNodes (j : Json) : Except String (List Node) := do
   (← getArr j "nodes").toList.mapM fun n => do
     let l ← getLabel (← n.getObjVal? "label")
     let deps ← getLabels n "deps"
-    pure (Node.target ⟨l, deps, [], [], false, true⟩)
+    pure (Node.target ⟨l, deps, [], [], [], false, true⟩)
 
 /-- {"op":"analysis.ancestors","nodes":[..],"queries":[label..]} → {"sets":[[label..]..]} -/
 def ancestorsH : Handler := fun j => do
